@@ -296,6 +296,22 @@ def length_form(v, res, lay):
         return (None, 'parsed_length of a parser that is not over the input')
     if isinstance(v, Sym) and v.op == 'add':
         terms = flatten_add(v)
+        phis = [t for t in terms if isinstance(t, Sym) and t.op == 'phi']
+        if phis:
+            # X + (A or B) is (X + A) or (X + B): an optional part whose length is 0 when it is absent
+            rest = [t for t in terms if t is not phis[0]]
+            kinds = []
+            for alt in phis[0].args:
+                parts = [t for t in rest + [alt] if not (isinstance(t, int) and not isinstance(t, bool) and t == 0)]
+                if not parts:
+                    kinds.append(('const', 0))
+                    continue
+                acc = parts[0]
+                for t in parts[1:]:
+                    acc = Sym('add', acc, t)
+                kinds.append(length_form(acc, res, lay))
+            bad = [k for k in kinds if k[0] is None]
+            return bad[0] if bad else ('phi', [k[0] for k in kinds])
         plens = [t for t in terms if isinstance(t, Sym) and t.op == 'plen']
         if len(plens) == len(terms) and len(terms) >= 2:
             ps = [t.args[0] for t in plens]
@@ -1299,17 +1315,19 @@ def declared_windows(ctx, report):
             if not (isinstance(s, ast.Subscript) and isinstance(s.value, ast.Name) and s.value.id == buf and isinstance(s.slice, ast.Slice) and s.slice.upper is not None):
                 continue
             up = s.slice.upper
-            fields = [x for x in ast.walk(up) if isinstance(x, ast.Subscript) and isinstance(x.slice, ast.Constant) and isinstance(x.slice.value, str)]
+            from ..rejections import fields_read
+            from ..astutil import inline_locals
+            fields = sorted(fields_read(up, f))       # through locals, tuple components and the values helper methods return
             if not fields:
                 continue
             n += 1
             report.count('C03.R8')
             report.touch(f)
-            key = fields[0].slice.value
+            key = fields[0]
             guarded = False
             for g in ast.walk(f.node):
-                if isinstance(g, ast.If) and g.lineno < s.lineno and 'len(%s)' % buf in ast.unparse(g.test) and key in ast.unparse(g.test) and \
-                        any(isinstance(x, ast.Raise) and 'NotEnoughData' in ast.unparse(x) for x in ast.walk(g)):
+                if isinstance(g, ast.If) and g.lineno < s.lineno and 'len(%s)' % buf in ast.unparse(inline_locals(g.test, f.node)) and \
+                        key in fields_read(g.test, f) and any(isinstance(x, ast.Raise) and 'NotEnoughData' in ast.unparse(x) for x in ast.walk(g)):
                     guarded = True
             if not guarded:
                 report.add('C03.R8', '%s@window[%s]' % (f.construct, key),
